@@ -114,12 +114,17 @@ def run(ctx):
         ctx.instance(R2, f"writer[{q}]", q in allowed, f"{q} writes the outstanding TestReqID", loc(nodes[0]))
     hb = repo.func("AsyncFIXConnection._process_heartbeat")
     hg = CFG(hb)
+    # the local that holds the Heartbeat's parsed TestReqID
+    echo = next((unparse(n.targets[0]) for n in walk_no_nested(hb) if isinstance(n, ast.Assign) and isinstance(n.targets[0], ast.Name)
+                 and "FTag.TestReqID" in unparse(n.value) and "int(" in unparse(n.value)), None)
+    if echo is None:
+        raise AnalysisError("_process_heartbeat: the parsed TestReqID local was not found")
     for n in hg.nodes:
         if n.kind == "stmt" and isinstance(n.ast, ast.Assign) and unparse(n.ast.targets[0]) == "self._test_req_id":
             fs = set()
             for t, lab in hg.guards(n.id, exc=False):
                 fs |= facts(t, lab == "true")
-            ok = any(tv and a in ("self._test_req_id == msg_test_id", "msg_test_id == self._test_req_id") for a, tv in fs) and unparse(n.ast.value) == "None"
+            ok = any(tv and a in (f"self._test_req_id == {echo}", f"{echo} == self._test_req_id") for a, tv in fs) and unparse(n.ast.value) == "None"
             ctx.instance(R2, "_process_heartbeat[cleared only on a matching id]", ok,
                          "the outstanding id is cleared without the equality test against the Heartbeat's TestReqID: any Heartbeat silences the watchdog", loc(n.ast))
 
@@ -131,7 +136,7 @@ def run(ctx):
     ctx.instance(R3, "Heartbeat[wrong TestReqID => Logout]", bool(treq_true),
                  "a Heartbeat echoing a wrong TestReqID while a TestRequest is outstanding does not lead to a Logout", loc(hb))
     finals = [o for o in outs if o[1].kind == "HEARTBEAT" and o[1].hbt == "mismatch" and o[1].state0 == "ACTIVE" and o[1].ord == "EQ" and o[1].integ == "ok"
-              and o[0] == "return" and any("_test_req_id != msg_test_id: true" in t for t in o[3])]
+              and o[0] == "return" and any(f"_test_req_id != {echo}: true" in t for t in o[3])]
     ok = bool(finals) and all(o[1].state in DOWN for o in finals)
     ctx.instance(R3, "Heartbeat[wrong TestReqID => disconnected]", ok, "after a Heartbeat with a wrong TestReqID the session is not disconnected", loc(hb))
     match = [e for e in evs_for("match") if e.site == "treq_write" and e.info[1] == "clear" and e.info[0].endswith("_process_heartbeat")]
